@@ -103,6 +103,8 @@ def _check(prop, tier, seed, replay, work, t0):
                 bad_keys = {kk for kk in range(1, hdr["nkeys"] + 1) if last.get(kk, 0) != sum(1 for q in keys_of if kk in q)}
             moved = {e["k"] for e in evs[:v["line"] - j] if e["ev"] == "Mig"}
             sig = {"invariant": names[0], "txn": hdr["txn"], "pipe": hdr["pipe"],
+                   # a jump over a command while the run goes on ("exec"), or a key that ends on a stale value ("return")
+                   "at": "return" if at["ev"] == "Return" else "exec",
                    "violating_key_migrated": bool(bad_keys & moved) or names[0] != "C19_PerKeyOrderBroken",
                    "migrated_before": any(e["ev"] == "Mig" for e in evs[:v["line"] - j]),
                    "first_run_reported_error": bool(rets and rets[0]["err"]),
